@@ -19,8 +19,8 @@ MAXLEN = 3
 
 # ------------------------------------------------------------------ TLC -> graph descriptions and cases
 def vkey(c):
-    """name of a variant: g2ls = graph G2, default view declared last, req mode sel"""
-    return "%s%s%s" % (c["g"].lower(), c["order"][0], c["req"][0])
+    """name of a variant: g2ls = graph G2, default view declared last, req mode sel (g1fbm3: third declaration order of the methods)"""
+    return "%s%s%s%s" % (c["g"].lower(), c["order"][0], c["req"][0], "m%d" % c["mo"] if c["mo"] != 1 else "")
 
 
 # the known deviations only act where a required attribute has a result type: their predictions are only computed there
@@ -98,7 +98,7 @@ def types_of(desc):
 
 
 def service_of(desc):
-    """the service of one variant: `any` (the service method chooses the view) and fix<view> for the views the cases fix in the design"""
+    """the service of one variant: `any` (the service method chooses the view) and fix<view> for the views fixed in the design, in the declaration order Views.tla gives"""
     n = vkey(desc)
     res = tname(desc, "T") + ("Coll" if desc["coll"] else "")
 
@@ -108,7 +108,7 @@ def service_of(desc):
         if fixed:
             m["resultView"] = fixed
         return m
-    return {"name": n, "methods": [meth("any")] + [meth("fix" + v, v) for v in sorted(desc["fixed"])]}
+    return {"name": n, "methods": [meth("any") if v == "-" else meth("fix" + v, v) for v in desc["methods"]]}
 
 
 def design_of(g, descs):
